@@ -3620,3 +3620,106 @@ def r18_13(ctx):
                 "255.255.255.0 is reported as a configuration, and the client then renews with that broadcast address as IP source", body=b, bb=bad[0][0], path=bad[0][1])
     else:
         ctx.ok(('parse_ack', 'not the subnet broadcast'), sample=dict(fn='parse_ack', guard='Ipv4Cidr::new(your_ip, prefix).broadcast() != Some(your_ip)'))
+
+
+@rule('R05.13', ['C05', 'C10'], floor=2, clause='the local MSS is the IP MTU minus the header length of the IP header this very segment gets (40 for IPv6, not a constant 20) minus the TCP header: in tcp dispatch what is subtracted from ip_mtu() first is header_len() of the segment\'s IpRepr')
+def r05_13(ctx):
+    F = ctx.F
+    b = ctx.method(SOCK, 'dispatch')
+    n = 0
+    for bi, bl in enumerate(b.blocks):
+        if bl['cl']:
+            continue
+        for si, s in enumerate(bl['s']):
+            if not (s[0] == 'a' and s[2][0] == 'bin' and s[2][1] in ('Sub', 'SubWithOverflow')):
+                continue
+            a, c = [strip(simplify(F.origin.operand(b, o, bi, si))) for o in s[2][2:4]]
+            if not is_call(a, '::ip_mtu'):
+                continue
+            n += 1
+            if is_call(c, 'ip::Repr::header_len') and any(cc[1].endswith('ip::Repr::new') for cc in _calls_in(c)):
+                ctx.ok(('tcp::dispatch', 'local mss', bi), sample=dict(local_mss='ip_mtu() - ip_repr.header_len() - TCP_HEADER_LEN'))
+            else:
+                ctx.bad("tcp::dispatch|local-mss-not-from-the-ip-header", f"tcp dispatch computes the local MSS as ip_mtu() - `{show(c)[:50]}`, not minus the header length of the segment's own IP header: "
+                        "over IPv6 (40-octet header) segments are 20 octets larger than the link MTU allows whenever the peer's MSS does not cap them", body=b, bb=bi)
+    ctx.need(n >= 2, f"ip_mtu() - .. computations in tcp dispatch (found {n})")
+
+
+@rule('R05.14', ['C05'], floor=1, clause='towards a peer that announced no MSS (or MSS 0) the sender assumes the default of 536 octets (RFC 9293 MUST-15): reset() installs remote_mss = 536')
+def r05_14(ctx):
+    F = ctx.F
+    b = ctx.method(SOCK, 'reset')
+    ws = [w for w in F.field_writes() if w['fn'] == b.key and w['kind'] == 'store' and w['adt'] == SOCK and w['field'] == 'remote_mss']
+    ctx.need(ws, "store to remote_mss in tcp reset()")
+    for w in ws:
+        v = const_of(strip(simplify(store_origin(F, b, w))))
+        if v == 536:
+            ctx.ok(('reset', 'remote_mss = 536'), sample=dict(field='remote_mss', default=536))
+        else:
+            ctx.bad("tcp::reset|default-mss", f"tcp reset() installs remote_mss = {v if v is not None else 'a computed value'} as the default: a peer that announced no MSS option is sent segments "
+                    "larger than the 536 octets it must be assumed to accept", body=b, bb=w['bb'])
+
+
+@rule('R20.11', ['C20', 'C06'], floor=1, clause='6LoWPAN multicast decompression takes the flags/scope octet from the wire in the 48-bit and 32-bit forms; only the 8-bit form implies ff02: a constant is stored into octet 1 of the rebuilt address only in the Multicast8bits arm')
+def r20_11(ctx):
+    F = ctx.F
+    ks = [k for k in F.bodies if k.endswith('::resolve') and 'UnresolvedAddress' in k and '{closure' not in k]
+    ctx.need(ks, "UnresolvedAddress::resolve")
+    b = F.bodies[ks[0]]
+    AM = 'wire::sixlowpan::AddressMode'
+    sites = []
+    for bi, bl in enumerate(b.blocks):
+        if bl['cl']:
+            continue
+        for si, s in enumerate(bl['s']):
+            if s[0] != 'a':
+                continue
+            pr = s[1][1]
+            idx = [p for p in pr if isinstance(p, list) and p[0] in ('ci', 'i')]
+            if not idx or b.locals[s[1][0]]['ty'] != '[u8; 16]':
+                continue
+            p = idx[-1]
+            pos = p[1] if p[0] == 'ci' else b._const_local(p[1])
+            if pos != 1:
+                continue
+            v = const_of(strip(simplify(F.origin.rvalue(b, s[2], bi, si, 0, None))))
+            sites.append((bi, v))
+    ctx.need(len(sites) >= 3, f"stores into octet 1 of the rebuilt address (found {len(sites)})")
+    e8 = guard_edges(F, b, lambda f: f[0] == 'is' and f[2] == 'Multicast8bits' and f[3] == AM)
+    ctx.need(e8, "the Multicast8bits arm of resolve")
+    for bi, v in sites:
+        if v is None:
+            ctx.ok(('resolve', 'scope from the wire', bi), sample=dict(octet=1, value='inline[0]'))
+        elif bi not in b.reachable(cut_edges=set(e8)):
+            ctx.ok(('resolve', '8-bit form', bi), sample=dict(octet=1, value=hex(v), arm='Multicast8bits'))
+        else:
+            ctx.bad("UnresolvedAddress::resolve|multicast-scope-constant", f"UnresolvedAddress::resolve stores the constant {hex(v)} into octet 1 (flags/scope) of a multicast address outside the 8-bit form: "
+                    "the compressor sends that octet in-line in the 32-bit and 48-bit forms, so ff05::1:3 is rebuilt as ff02::1:3", body=b, bb=bi)
+
+
+@rule('R09.14', ['C09', 'C07'], floor=1, clause='a UDP datagram without payload (length field = 8) is a valid datagram: udp::Packet::check_len rejects a length field only when it is smaller than the header length, not when it equals it')
+def r09_14(ctx):
+    F = ctx.F
+    ks = [k for k in F.bodies if re.match(r'wire::udp::Packet::<T>::check_len$', k)]
+    ctx.need(ks, "udp::Packet::check_len")
+    b = F.bodies[ks[0]]
+    oks = [x[0] for x in agg_sites(b, 'std::result::Result', ['Ok'])]
+    ctx.need(oks, "Ok(()) in udp check_len")
+    n = 0
+    for bi, bl in enumerate(b.blocks):
+        if bl['cl'] or bl['t'][0] != 'switch':
+            continue
+        for tb, lab, f in cond_facts(F, b, bi):
+            if f[0] != 'rel':
+                continue
+            for x, y, op in ((f[2], f[3], f[1]), (f[3], f[2], FLIP[f[1]])):
+                if const_of(strip(simplify(y))) == 8 and any(c[1].endswith('udp::Packet::<T>::len') for c in _calls_in(simplify(x))):
+                    if not any(o in b.reachable(start=tb) for o in oks):
+                        continue
+                    n += 1
+                    if op in ('Ge',) or (op == 'Gt' and False):
+                        ctx.ok(('udp::check_len', 'len >= 8'), sample=dict(accepts='length field >= 8'))
+                    elif op in ('Gt', 'Ne'):
+                        ctx.bad("udp::Packet::check_len|empty-datagram-rejected", "udp::Packet::check_len lets a packet pass only if its length field is greater than the header length: "
+                                "a valid datagram without payload (length 8) is dropped and never reaches the bound socket", body=b, bb=bi)
+    ctx.need(n >= 1, "comparison of the UDP length field with the header length on the accepting path")
